@@ -72,11 +72,42 @@ def gen_program(rng, prop, tier, run_index):
     if cfg['nneg'] > 0:
         cfg['qscale'] = max(cfg['qscale'], 1e-2)
         # an unbounded direction needs bounds or the quartic to stay bounded below: quartic does it
+    hump = bool((not convex) and rng.random() < 0.6)
+    if hump:
+        # non-convex box QP in the style "flat direction pushed against a face + stiff direction + negative
+        # curvature direction": the projected-gradient arc has a hump, and a capped SPG sub-problem can end
+        # with a positive model value
+        n = 3
+        if rng.random() < 0.5:
+            h = [0.0, float(10.0 ** rng.uniform(1, 2.3)), float(-10.0 ** rng.uniform(0, 1))]
+            g = [float(10.0 ** rng.uniform(0.8, 1.5)), float(rng.uniform(0.3, 2)), float(rng.uniform(0.3, 2))]
+        else:
+            h = [0.0, float(rng.uniform(50, 150)), float(-rng.uniform(2, 6))]
+            g = [float(rng.uniform(10, 20)), float(rng.uniform(0.7, 1.4)), float(rng.uniform(0.7, 1.4))]
+        perm = [int(v) for v in rng.permutation(3)]
+        H = np.zeros((3, 3))
+        gg = np.zeros(3)
+        lb, ub = np.zeros(3), np.zeros(3)
+        raw_lb = [0.0, -float(rng.uniform(0.3, 0.7)), -3.0]
+        raw_ub = [float('inf'), float('inf'), 2.0]
+        for a_, b_ in enumerate(perm):
+            H[b_, b_], gg[b_], lb[b_], ub[b_] = h[a_], g[a_], raw_lb[a_], raw_ub[a_]
+        cfg.update(n=3, family='Qi', explicit={'H': H.tolist(), 'g': gg.tolist(), 'c3': [0.0] * families.K3,
+                                              'T': np.zeros((families.K3, 3)).tolist()},
+                   explicit_box={'lb': lb.tolist(), 'ub': ub.tolist(), 'x0': [0.0, 0.0, 0.0]},
+                   boxkinds=['finite'] * 3, nneg=1, nzero=1)
     nops = int(rng.integers(1, 4 if tier == 'quick' else 5))
     ops = []
     for k in range(nops):
         r = rng.random()
-        if r < 0.55 or k == 0:
+        if hump and k == 0:
+            st = {'tr_size': float(rng.uniform(0.8, 1.3))}
+            if rng.random() < 0.9:
+                st['max_spg_iters'] = int(rng.choice([1, 1, 2, 5, 6, 11, 12]))
+            if rng.random() < 0.3:
+                st['spg_use_nonmonotone'] = False
+            ops.append({'op': 'spg_min', 'settings': st})
+        elif r < 0.55 or k == 0:
             ops.append({'op': 'spg_min', 'settings': gen_settings(rng, fault_mode)})
         elif r < 0.85:
             ops.append({'op': 'spg_solve', 'settings': gen_settings(rng, fault_mode),
@@ -155,6 +186,10 @@ class App:
                 lb[i], ub[i] = -np.inf, np.inf
             else:
                 lb[i], ub[i] = c, c
+        if cfg.get('explicit_box'):
+            eb = cfg['explicit_box']
+            lb, ub = np.asarray(eb['lb'], dtype=float), np.asarray(eb['ub'], dtype=float)
+            xc = np.asarray(eb['x0'], dtype=float)
         self.lb, self.ub = lb, ub
         x0 = clamp(xc, lb, ub)
         if cfg['start'] in ('faces', 'vertex'):
@@ -163,6 +198,8 @@ class App:
                     cands = [v for v in (lb[i], ub[i]) if np.isfinite(v)]
                     if cands:
                         x0[i] = cands[int(rb.integers(0, len(cands)))]
+        if cfg.get('explicit_box'):
+            x0 = clamp(np.asarray(cfg['explicit_box']['x0'], dtype=float), lb, ub)
         self.x = x0
         self.plan = seams.chol_plan(ctx)
         self.cgseam = seams.KrylovSeam(L['WS'].cg, ctx, 'ws_cg')
@@ -253,6 +290,21 @@ class App:
             return out
         seams.patch(TR, 'project', project)
         seams.patch(TR, 'project_onto_tr', project_onto_tr)
+        real_banner = TR.print_min_banner
+
+        def banner(realO, modelO, res, modelRes, spgIters, trSize, stepType, willAccept, settings):
+            try:
+                if float(modelO) > 0:
+                    ctx.probe('spg:model_increase')
+                    if float(modelO) > 1e-8 * (abs(float(realO)) + float(trSize)):
+                        ctx.probe('spg:model_increase_significant')
+                    if willAccept:
+                        ctx.probe('spg:model_increase_accepted')
+                ctx.probe('spg:accepted' if willAccept else 'spg:rejected')
+            except Exception:
+                pass
+            return real_banner(realO, modelO, res, modelRes, spgIters, trSize, stepType, willAccept, settings)
+        seams.patch(TR, 'print_min_banner', banner)
 
     # -- ops ------------------------------------------------------------------------------
     def settings(self, s):
